@@ -194,5 +194,7 @@ func ResponseHeaderAtoms() []NameAtom {
 	}
 }
 
-func MaxAges() []int  { return []int{0, 1, -1, 86400, -2, 86401, math.MinInt, math.MaxInt} }
-func Statuses() []int { return []int{0, 200, 204, 299, 199, 300, 1, -1, math.MinInt, math.MaxInt} }
+func MaxAges() []int { return []int{0, 1, -1, 86400, -2, 86401, math.MinInt, math.MaxInt} }
+func Statuses() []int {
+	return []int{0, 200, 204, 299, 199, 300, 1, -1, math.MinInt, math.MaxInt, 1<<32 + 204, 256 + 204}
+}
